@@ -222,6 +222,10 @@ func HarnessL3() {
 	}
 	d := zzvrt.NewDoc()
 	zzTypeCorrectObject(d)
+	if ps.ghost {
+		// the undeclared required key is there whenever the object is (a string)
+		zzvrt.Assume(zzvrt.Or(zzvrt.Not(zzvrt.DIs(d, "x", zzvrt.KObject)), zzvrt.DIs(d, "x/ghost", zzvrt.KString)))
+	}
 	r, accepted, ok := zzRunT("C19.L3", h, rootType, "json", d)
 	if !ok {
 		return
